@@ -3,6 +3,7 @@ mod par;
 mod report;
 mod tree;
 mod valmc;
+mod scopemc;
 mod lang;
 mod gen;
 mod progmc;
@@ -54,6 +55,7 @@ fn main() {
         "C07" => conv::c07(thorough, replay),
         "C08" => valmc::c08(thorough, replay),
         "C09" => conv::c09(thorough, replay),
+        "C10" => scopemc::c10(thorough, replay),
         "C12" => dbgmc::c12(thorough, replay),
         "C14" => crashmc::c14(thorough, replay),
         "C15" => parsemc::c15(thorough, replay),
